@@ -17,6 +17,7 @@
 //!   openip <c> <wire>                     → ok <label> <seq> <pt>      | err <kind> <data> | panic
 //!   rm <c>                                → ok
 //!   msg <bytes>                           → data <n> | control <n> | err <kind>
+//!   ad <version> <label32>                → bytes of AuthData::to_bytes (hook verif_to_bytes)
 //! `<oracle>` = the bytes the real cipher produced (`ciphertext ‖ tag`), which the model's ideal
 //! AEAD takes as its output; buffers are pre-filled with 0xA5 and reported as
 //! `z<k>/<n>` (= first k bytes zero, the other n-k untouched) or `other`.
@@ -58,16 +59,24 @@ impl Csprng for DetRng {
     }
 }
 
+/// positions of the label id that carry the eight bytes of the label index: first bytes, middle,
+/// and the last four bytes (28..31), so that label indices differing in one byte/bit give label
+/// ids differing in exactly that byte/bit at every position class
+const LABEL_POS: [usize; 8] = [0, 1, 14, 15, 28, 29, 30, 31];
+
 fn label_id(i: u64) -> LabelId {
-    let mut b = [0u8; 32];
-    b[..8].copy_from_slice(&i.to_le_bytes());
-    b[31] = 0x4c;
+    let mut b = [0x4cu8; 32];
+    for (k, x) in i.to_le_bytes().iter().enumerate() {
+        b[LABEL_POS[k]] = *x;
+    }
     LabelId::from_bytes(b)
 }
 fn label_idx(l: LabelId) -> String {
     let b = l.as_bytes();
     let mut x = [0u8; 8];
-    x.copy_from_slice(&b[..8]);
+    for k in 0..8 {
+        x[k] = b[LABEL_POS[k]];
+    }
     if label_id(u64::from_le_bytes(x)) == l {
         u64::from_le_bytes(x).to_string()
     } else {
@@ -139,6 +148,7 @@ enum Cmd {
     OpenIp { c: usize, wire: Vec<u8> },
     Rm { c: usize },
     Msg { bytes: Vec<u8> },
+    Ad { version: u32, label: Vec<u8> },
 }
 
 impl Cmd {
@@ -157,6 +167,7 @@ impl Cmd {
             ["openip", c, w] => Cmd::OpenIp { c: z(c)?, wire: unhex(w)? },
             ["rm", c] => Cmd::Rm { c: z(c)? },
             ["msg", b] => Cmd::Msg { bytes: unhex(b)? },
+            ["ad", v, l] => Cmd::Ad { version: v.parse().ok()?, label: unhex(l).filter(|l| l.len() == 32)? },
             _ => return None,
         })
     }
@@ -450,6 +461,21 @@ impl Sys {
                 };
                 rec.line(req, ans);
             }
+            Cmd::Ad { version, label } => {
+                // byte-level tie of `AuthData::to_bytes` (hook `verif_to_bytes`, cfg aranya_core_verif)
+                let mut lb = [0u8; 32];
+                lb.copy_from_slice(label);
+                let ad = aranya_crypto::afc::AuthData { version: *version, label_id: LabelId::from_bytes(lb) };
+                let got = ad.verif_to_bytes().to_vec();
+                // S-level: every byte of version and label is in the additional data, nothing else
+                let mut want = version.to_le_bytes().to_vec();
+                want.extend_from_slice(label);
+                let req = format!("ad {version} {}", hex(label));
+                if got != want {
+                    rec.oracle_fail_with(format!("AuthData::to_bytes({version}, {}) = {}, expected version(u32 LE) ‖ label = {}", hex(label), hex(&got), hex(&want)), vec!["new".into(), req.clone()]);
+                }
+                rec.line(req, hex(&got));
+            }
             Cmd::Msg { bytes } => {
                 let r = catch_once(|| match Message::try_parse(bytes) {
                     Ok(m) => match m.payload {
@@ -658,7 +684,14 @@ fn run_generated(args: &Args, rec: &mut Recorder) {
         let b = g.chan(4, 4, 0); // same label, other key
         let m = g.chan(5, 6, 0); // the two sides disagree on the label
         // labels that agree in all but one byte (low / middle / high byte of the label id)
-        let near = [g.chan(5, 5 + 256, 0), g.chan(5, 5 + (1 << 56), 0), g.chan(4, 5, 0)];
+        // (same raw key at both ends; one byte / one bit of the label id differs, at every
+        // position class: first byte, second, middle 14/15, and each of the bytes 28..31)
+        let mut near = vec![g.chan(4, 5, 0)];
+        for k in 0..8u32 {
+            near.push(g.chan(5, 5 ^ (1u64 << (8 * k)), 0));
+            near.push(g.chan(5, 5 ^ (0x80u64 << (8 * k)), 0));
+        }
+        near.push(g.chan(5 ^ (1u64 << 63), 5, 0));
         let la = g.rng.below(40) as usize;
         let (p1, p2, p3) = (g.rng.bytes(la), g.rng.bytes(la), g.rng.bytes(la));
         let w1 = g.seal(a, p1, false);
@@ -770,6 +803,22 @@ fn run_generated(args: &Args, rec: &mut Recorder) {
             g.x(Cmd::Msg { bytes: s });
         }
     }
+    // additional-data framing: random (version, label) plus labels differing in single bytes
+    for _ in 0..(if big { 400 } else { 60 }) {
+        let version = match g.rng.below(3) { 0 => Version::V1 as u32, 1 => g.rng.next_u64() as u32, _ => g.rng.below(70000) as u32 };
+        let label = g.rng.bytes(32);
+        g.x(Cmd::Ad { version, label: label.clone() });
+        let pos = g.rng.below(32) as usize;
+        let mut l2 = label;
+        l2[pos] ^= 1 << g.rng.below(8);
+        g.x(Cmd::Ad { version, label: l2 });
+    }
+    for pos in 0..32usize {
+        let mut l = vec![0u8; 32];
+        l[pos] = 0xff;
+        g.x(Cmd::Ad { version: Version::V1 as u32, label: l });
+    }
+    g.rec.count("ad:framing");
     // every value of each 16-bit header field, the other field valid: near misses that agree
     // with a valid value in one byte (0x0101, 0x0201, 0x6f00, 0x0054, …) are all in here
     for t in 0..=u16::MAX {
